@@ -23,19 +23,20 @@ EXTENDS Naturals, FiniteSets, Sequences, TLC
 
 CONSTANTS N,          \* tasks 1..N
           L,          \* the listener task
-          Mode,
+          Modes,      \* set of modes, one is chosen in Init
           MaxSignals
 
-VARIABLES prev, next, hot, head, tail,    \* items and the two lists: head/tail are functions of BOOLEAN (TRUE = hot list)
+VARIABLES Mode, prev, next, hot, head, tail,    \* items and the two lists: head/tail are functions of BOOLEAN (TRUE = hot list)
           pc, key, q, rp, rn, rt,         \* the interrupted thread: program counter, arguments, registers
           sync, nsig
 
-vars == <<prev, next, hot, head, tail, pc, key, q, rp, rn, rt, sync, nsig>>
+vars == <<Mode, prev, next, hot, head, tail, pc, key, q, rp, rn, rt, sync, nsig>>
 None == 0
 Tasks == 1..N
 
 \* all tasks cold, linked in ascending order
 Init ==
+  /\ Mode \in Modes
   /\ prev = [k \in Tasks |-> k - 1]
   /\ next = [k \in Tasks |-> IF k = N THEN None ELSE k + 1]
   /\ hot = [k \in Tasks |-> FALSE]
@@ -51,37 +52,37 @@ Begin(k) ==
   /\ k # L                       \* the listener task itself only moves when the handler (or the drain) wakes it
   /\ key' = k /\ q' = hot[k]     \* q = list it is unlinked from
   /\ pc' = "u1"
-  /\ UNCHANGED <<prev, next, hot, head, tail, rp, rn, rt, sync, nsig>>
+  /\ UNCHANGED <<prev, next, hot, head, tail, rp, rn, rt, sync, nsig, Mode>>
 
 \* between operations the thread drains the sync queue (drain_sync -> make_hot), in normal context
 Drain(k) ==
   /\ pc = "idle" /\ k \in sync
   /\ sync' = sync \ {k}
   /\ (IF hot[k] THEN UNCHANGED <<key, q, pc>> ELSE key' = k /\ q' = FALSE /\ pc' = "u1")
-  /\ UNCHANGED <<prev, next, hot, head, tail, rp, rn, rt, nsig>>
+  /\ UNCHANGED <<prev, next, hot, head, tail, rp, rn, rt, nsig, Mode>>
 
 U1 == /\ pc = "u1" /\ rp' = prev[key] /\ rn' = next[key] /\ pc' = "u2"
-      /\ UNCHANGED <<prev, next, hot, head, tail, key, q, rt, sync, nsig>>
+      /\ UNCHANGED <<prev, next, hot, head, tail, key, q, rt, sync, nsig, Mode>>
 U2 == /\ pc = "u2" /\ head' = (IF head[q] = key THEN [head EXCEPT ![q] = rn] ELSE head) /\ pc' = "u3"
-      /\ UNCHANGED <<prev, next, hot, tail, key, q, rp, rn, rt, sync, nsig>>
+      /\ UNCHANGED <<prev, next, hot, tail, key, q, rp, rn, rt, sync, nsig, Mode>>
 U3 == /\ pc = "u3" /\ tail' = (IF tail[q] = key THEN [tail EXCEPT ![q] = rp] ELSE tail) /\ pc' = "u4"
-      /\ UNCHANGED <<prev, next, hot, head, key, q, rp, rn, rt, sync, nsig>>
+      /\ UNCHANGED <<prev, next, hot, head, key, q, rp, rn, rt, sync, nsig, Mode>>
 U4 == /\ pc = "u4" /\ next' = (IF rp # None THEN [next EXCEPT ![rp] = rn] ELSE next) /\ pc' = "u5"
-      /\ UNCHANGED <<prev, hot, head, tail, key, q, rp, rn, rt, sync, nsig>>
+      /\ UNCHANGED <<prev, hot, head, tail, key, q, rp, rn, rt, sync, nsig, Mode>>
 U5 == /\ pc = "u5" /\ prev' = (IF rn # None THEN [prev EXCEPT ![rn] = rp] ELSE prev) /\ pc' = "l1"
-      /\ UNCHANGED <<next, hot, head, tail, key, q, rp, rn, rt, sync, nsig>>
+      /\ UNCHANGED <<next, hot, head, tail, key, q, rp, rn, rt, sync, nsig, Mode>>
 \* link_tail::<!q>(key)
 L1 == /\ pc = "l1" /\ rt' = tail[~q] /\ pc' = "l2"
-      /\ UNCHANGED <<prev, next, hot, head, tail, key, q, rp, rn, sync, nsig>>
+      /\ UNCHANGED <<prev, next, hot, head, tail, key, q, rp, rn, sync, nsig, Mode>>
 L2 == /\ pc = "l2" /\ tail' = [tail EXCEPT ![~q] = key] /\ pc' = "l3"
-      /\ UNCHANGED <<prev, next, hot, head, key, q, rp, rn, rt, sync, nsig>>
+      /\ UNCHANGED <<prev, next, hot, head, key, q, rp, rn, rt, sync, nsig, Mode>>
 L3 == /\ pc = "l3" /\ head' = (IF head[~q] = None THEN [head EXCEPT ![~q] = key] ELSE head) /\ pc' = "l4"
-      /\ UNCHANGED <<prev, next, hot, tail, key, q, rp, rn, rt, sync, nsig>>
+      /\ UNCHANGED <<prev, next, hot, tail, key, q, rp, rn, rt, sync, nsig, Mode>>
 L4 == /\ pc = "l4" /\ prev' = [prev EXCEPT ![key] = rt] /\ next' = [next EXCEPT ![key] = None]
       /\ hot' = [hot EXCEPT ![key] = ~q] /\ pc' = "l5"
-      /\ UNCHANGED <<head, tail, key, q, rp, rn, rt, sync, nsig>>
+      /\ UNCHANGED <<head, tail, key, q, rp, rn, rt, sync, nsig, Mode>>
 L5 == /\ pc = "l5" /\ next' = (IF rt # None THEN [next EXCEPT ![rt] = key] ELSE next) /\ pc' = "idle"
-      /\ UNCHANGED <<prev, hot, head, tail, key, q, rp, rn, rt, sync, nsig>>
+      /\ UNCHANGED <<prev, hot, head, tail, key, q, rp, rn, rt, sync, nsig, Mode>>
 
 (* ----- the handler: runs as a whole on top of the thread, at any of the points above ----- *)
 \* make_hot(L) exactly as the code does it, on whatever the interrupted thread left behind
@@ -108,7 +109,7 @@ Handler ==
   /\ (IF Mode = "local"
         THEN HMakeHot /\ UNCHANGED sync
         ELSE sync' = sync \cup {L} /\ UNCHANGED <<prev, next, hot, head, tail>>)
-  /\ UNCHANGED <<pc, key, q, rp, rn, rt>>
+  /\ UNCHANGED <<pc, key, q, rp, rn, rt, Mode>>
 
 Next == (\E k \in Tasks : Begin(k) \/ Drain(k)) \/ U1 \/ U2 \/ U3 \/ U4 \/ U5 \/ L1 \/ L2 \/ L3 \/ L4 \/ L5 \/ Handler
 Spec == Init /\ [][Next]_vars
@@ -127,6 +128,14 @@ WellFormed ==
       /\ Walk(b) = {k \in Tasks : hot[k] = b}
       /\ (Walk(b) = {}) <=> (head[b] = None)
       /\ (Walk(b) # {}) => (tail[b] \in Walk(b) /\ next[tail[b]] = None)
+NoLostTaskP == pc = "idle" => \A k \in Tasks : hot[k] => k \in Walk(TRUE)
+\* one run for both modes: the remote mode must keep the queue well formed, the local mode (the code as it
+\* is) must reach a state where it is not: CtlSeen is always TRUE and prints "local" the first time
+RemoteWellFormed == (Mode = "remote") => (WellFormed /\ NoLostTaskP)
+CtlInit == TLCSet(21, 0)
+CtlSeen == (Mode = "local" /\ ~(WellFormed /\ NoLostTaskP) /\ TLCGet(21) = 0) => (TLCSet(21, 1) /\ PrintT(<<"CTL", Mode>>))
+CtlCons == Mode = "remote" \/ TLCGet(21) = 0
+CtlSpec == CtlInit /\ Spec
 \* the user-visible consequence: a task that was scheduled (hot) but will never be reached by tick's iteration
-NoLostTask == pc = "idle" => \A k \in Tasks : hot[k] => k \in Walk(TRUE)
+NoLostTask == NoLostTaskP
 =============================================================================
